@@ -15,6 +15,10 @@
 //                                   and the difference between the rebuilt catalog and the remembered
 //                                   one, read by the independent reader of djv_schema.cpp:
 //                                     minus <dump> plus <dump>
+// The catalog read for C17 holds what verify() can look at: tables and views by name (sqlite_master),
+// PRAGMA table_info of every table, PRAGMA index_list / index_info of every table; no DDL text, no
+// triggers, no view columns (view bodies are outside the property).  A trigger of the base library
+// that no longer compiles against the mutated tables is left out (reported as trigskip=<n>).
 // The rebuilt files carry one Information row with the base version triple (best effort:
 // a mutant whose Information table cannot take it has none).
 #include <algorithm>
@@ -52,7 +56,6 @@ struct parts
     std::vector<std::string> m, t, x;
 };
 std::vector<row> query(sqlite3* h, const std::string& sql);
-void dump_db(sqlite3* h, const std::string& sname, const std::string& label, parts& p);
 std::string render(const parts& p);
 }  // namespace schema
 }  // namespace djv
@@ -76,15 +79,50 @@ struct base_state
 };
 base_state B;
 
-// drop the DDL text of a master entry ("label type name tbl sql" -> "... none")
-std::string nosql(const std::string& m)
+std::string hs(const ostr& s) { return hexstr(s ? *s : std::string()); }
+std::string hx(const ostr& s) { return s ? hexstr(*s) : std::string("none"); }
+std::string num(const ostr& s) { return s ? *s : std::string("0"); }
+std::string sqlq(const std::string& s)
 {
-    auto k = m.rfind(' ');
-    return m.substr(0, k) + " none";
+    std::string o = "'";
+    for (char c : s)
+    {
+        if (c == '\'') o += "''";
+        else o += c;
+    }
+    return o + "'";
 }
-void strip_sql(parts& p)
+
+// the structural catalog of sqlite schema `sname` of connection h (text form of djv_schema.cpp)
+void dump_cat(sqlite3* h, const std::string& sname, const std::string& label, parts& p)
 {
-    for (auto& m : p.m) m = nosql(m);
+    auto master = query(h, "SELECT type, name, tbl_name FROM " + sname +
+                               ".sqlite_master WHERE type IN ('table', 'view') ORDER BY type, name");
+    for (auto& r : master)
+    {
+        p.m.push_back(label + " " + *r[0] + " " + hs(r[1]) + " " + hs(r[2]) + " none");
+        if (*r[0] != "table") continue;
+        {
+            auto cols = query(h, "PRAGMA " + sname + ".table_info(" + sqlq(*r[1]) + ")");
+            std::string s = label + " " + hs(r[1]) + " " + std::to_string(cols.size());
+            for (auto& c : cols)
+                s += " " + hs(c[1]) + " " + hs(c[2]) + " " + num(c[3]) + " " + hx(c[4]) + " " + num(c[5]);
+            p.t.push_back(s);
+        }
+        {
+            auto idx = query(h, "PRAGMA " + sname + ".index_list(" + sqlq(*r[1]) + ")");
+            std::sort(idx.begin(), idx.end(), [](const row& a, const row& b) { return *a[1] < *b[1]; });
+            std::string s = label + " " + hs(r[1]) + " " + std::to_string(idx.size());
+            for (auto& i : idx)
+            {
+                auto ic = query(h, "PRAGMA " + sname + ".index_info(" + sqlq(*i[1]) + ")");
+                s += " " + hs(i[1]) + " " + num(i[2]) + " " + hs(i[3]) + " " + num(i[4]) + " " +
+                     std::to_string(ic.size());
+                for (auto& c : ic) s += " " + num(c[0]) + " " + hx(c[2]);
+            }
+            p.x.push_back(s);
+        }
+    }
 }
 
 parts diff(const parts& a, const parts& b)  // entries of a that are not in b
@@ -170,15 +208,14 @@ DJV_CMD(sv_base, "sv.base")
             B.stmts.push_back({l, *r[0], *r[1], *r[2], *r[3]});
             out += " " + l + " " + *r[0] + " " + hexstr(*r[1]) + " " + hexstr(*r[2]) + " " + hexstr(*r[3]);
         }
-        dump_db(h, l, l, B.cat);
+        dump_cat(h, l, l, B.cat);
     }
-    strip_sql(B.cat);
     auto v = query(h, std::string("SELECT schemaVersionMajor, schemaVersionMinor, schemaVersionPatch FROM ") +
                           B.labels[0] + ".Information");
     if (v.size() != 1) throw bad_command{"Information rows"};
     for (int i = 0; i < 3; ++i) B.ver[i] = v[0][i] ? *v[0][i] : "0";
     B.set = true;
-    return std::to_string(B.stmts.size()) + out;
+    return std::to_string(B.stmts.size()) + out + " cat " + render(B.cat);
 }
 
 DJV_CMD(sv_mut, "sv.mut")
@@ -208,6 +245,7 @@ DJV_CMD(sv_mut, "sv.mut")
     auto dir = new_dir();
     if (B.v2) fs::create_directories(dir + "/Database2");
     parts cat;
+    int trigskip = 0;
     for (auto& l : B.labels)
     {
         rawconn c{file_of(dir, l)};
@@ -218,16 +256,23 @@ DJV_CMD(sv_mut, "sv.mut")
             if (s.label != l) continue;
             if (l == label && omit.count(i)) continue;
             const std::string& sql = (l == label && repl.count(i)) ? repl[i] : s.sql;
-            if (!c.exec(sql, &err)) throw bad_command{"exec: " + err + " in " + sql.substr(0, 60)};
+            if (!c.exec(sql, &err))
+            {
+                if (s.type == "trigger" && l == label)
+                {
+                    ++trigskip;
+                    continue;
+                }
+                throw bad_command{"exec: " + err + " in " + sql.substr(0, 60)};
+            }
         }
         if (l == label)
             for (auto& sql : add)
                 if (!c.exec(sql, &err)) throw bad_command{"exec: " + err + " in " + sql.substr(0, 60)};
         c.exec("INSERT INTO Information (schemaVersionMajor, schemaVersionMinor, schemaVersionPatch) VALUES (" +
                B.ver[0] + ", " + B.ver[1] + ", " + B.ver[2] + ")");
-        dump_db(c.h, "main", l, cat);
+        dump_cat(c.h, "main", l, cat);
     }
-    strip_sql(cat);
     // the public path
     std::string load, pub = "na";
     {
@@ -249,6 +294,6 @@ DJV_CMD(sv_mut, "sv.mut")
         });
     std::error_code ec;
     fs::remove_all(dir, ec);
-    return "load=" + load + " pub=" + pub + " int=" + in + " minus " + render(diff(B.cat, cat)) + " plus " +
+    return "load=" + load + " pub=" + pub + " int=" + in + " trigskip=" + std::to_string(trigskip) + " minus " + render(diff(B.cat, cat)) + " plus " +
            render(diff(cat, B.cat));
 }
